@@ -23,7 +23,7 @@ RULE = ("seeded random vectors/axes/angles incl. the degenerate neighbourhoods (
         "on a grid and log-uniform, d = 0 exactly, the branch switch of both tolerances in use, angle 0/pi/2pi, "
         "axis-aligned and rescaled vectors); every bundled .mol2 molecule <= 120 atoms plus generated 3-D trees, "
         "ring-closed trees and random graphs; every acyclic bond with substituents on both ends in both directions (quick: "
-        "a seeded sample of 5-6 directed bonds per molecule) "
+        "a seeded sample of 8-12 directed bonds per molecule) "
         "x 8 target angles; random ensembles (1..8 conformers, incl. n_conformers == n_atoms == 3) and pentane_confs. "
         "non-trivial = non-degenerate input and (>= 4 atoms moved | rotation angle not 0 | rmsd problem with >= 4 core "
         "atoms); distinct by operation + rounded inputs")
@@ -80,22 +80,22 @@ DELTAS = [1e-3, 1e-4, 1e-5, 1e-6, 1e-7, 1e-8, 1e-9, 1e-10, 1e-11, 1e-12, 0.0]
 def plan(tier, seed):
     q = tier == "quick"
     specs = []
-    for i in range(8 if q else 64):
+    for i in range(16 if q else 64):
         specs.append({"kind": "rotvec", "chunk": i, "n": 2500 if q else 9000})
-    for i in range(4 if q else 32):
+    for i in range(8 if q else 32):
         specs.append({"kind": "rotaxis", "chunk": i, "n": 2500 if q else 9000})
-    for i in range(8 if q else 64):
+    for i in range(16 if q else 64):
         specs.append({"kind": "geom", "chunk": i, "n": 20 if q else 60})
-    for i in range(8 if q else 64):
+    for i in range(16 if q else 64):
         specs.append({"kind": "ens", "chunk": i, "n": 90 if q else 270})
     # dihedrals: bundled molecules spread over chunks + generated molecules
     for i in range(4 if q else 8):
         specs.append({"kind": "dihedral", "chunk": i, "source": "bundled", "part": i, "of": 4 if q else 8,
-                      "max_bonds": 6 if q else 10 ** 6})
-    for i in range(10 if q else 96):
-        specs.append({"kind": "dihedral", "chunk": 100 + i, "source": "generated", "n": 6 if q else 16,
-                      "max_bonds": 5 if q else 10 ** 6})
-    for i in range(8 if q else 64):
+                      "max_bonds": 12 if q else 10 ** 6})
+    for i in range(16 if q else 96):
+        specs.append({"kind": "dihedral", "chunk": 100 + i, "source": "generated", "n": 8 if q else 16,
+                      "max_bonds": 8 if q else 10 ** 6})
+    for i in range(16 if q else 64):
         specs.append({"kind": "align", "chunk": i, "n": 30 if q else 100})
     specs.append({"kind": "realistic", "chunk": 0})
     if not q:  # ~16 s of one core for ~240 contract evaluations: thorough only
